@@ -37,13 +37,36 @@ type DraPod struct {
 	Claims []string `json:"claims"` // names of the ResourceClaims the pod references
 }
 
+// DraNode is an existing node of the cluster (initialized unless Stage says otherwise) with a node-local partitionable
+// device: pool "np-<name>" whose slices are pinned to the node by spec.nodeName and owned by the Node object, a shared
+// counter of Slots units, and partitions of which those marked Pre are allocated to pods running on the node
+type DraNode struct {
+	Name  string    `json:"name"`
+	Pool  string    `json:"pool"`
+	IT    string    `json:"it"`
+	Zone  string    `json:"zone"`
+	Stage string    `json:"stage,omitempty"`
+	Slots int64     `json:"slots"`
+	Parts []PartDev `json:"parts"`
+	Split bool      `json:"split,omitempty"` // the partitions are published in two device slices
+}
+
+func (n DraNode) poolName() string { return "np-" + n.Name }
+
+// nodeSlotLabel is a label only the existing nodes carry (value = node name): a pod selecting it can run on that node
+// only (kubernetes.io/hostname is a restricted label, Karpenter ignores pods that select it)
+const nodeSlotLabel = "example.com/slot"
+
 type DraPassIn struct {
 	ITs      []world.IT          `json:"its"`
 	Pools    []world.NodePool    `json:"pools"`
+	Nodes    []DraNode           `json:"nodes,omitempty"`
+	PPools   []PartPool          `json:"ppools,omitempty"` // partitionable pools that are not node-local (cluster-wide, zonal)
 	Excl     []string            `json:"excl"`     // exclusive in-cluster devices (cluster-wide slice)
 	Shared   []SharedDev         `json:"shared"`   // multi-allocatable in-cluster devices
 	Prealloc []string            `json:"prealloc"` // exclusive devices held by an already allocated claim of a non-pod consumer
 	Tmpl     map[string][]string `json:"tmpl"`     // instance type -> template device names
+	TParts   map[string]TPartPool `json:"tparts,omitempty"` // instance type -> the partitionable device it comes with (template partitions, template counter)
 	Claims   []AClaim            `json:"claims"`
 	Pods     []DraPod            `json:"pods"`
 	Par      int                 `json:"parallelism"`
@@ -57,7 +80,8 @@ type DraPassClaim struct {
 }
 
 type DraPassOut struct {
-	Claims []DraPassClaim    `json:"claims"`
+	Claims   []DraPassClaim    `json:"claims"`
+	Existing []DraPassClaim    `json:"existing"` // existing nodes that received pods: host = the allocator's id of the node (its provider id)
 	Errors map[string]string `json:"errors"`
 	Meta   []MetaEntry       `json:"meta"`
 	Err    string            `json:"err,omitempty"`
@@ -69,6 +93,13 @@ func implDraPass(raw json.RawMessage) (any, error) {
 		return nil, err
 	}
 	scn := &world.Scenario{ITs: in.ITs, Pools: in.Pools, Nodes: []world.Node{}, DaemonSets: []world.DaemonSet{}, Pods: nil, Parallelism: in.Par}
+	for _, n := range in.Nodes {
+		stage := n.Stage
+		if stage == "" {
+			stage = "initialized"
+		}
+		scn.Nodes = append(scn.Nodes, world.Node{Name: n.Name, Pool: n.Pool, IT: n.IT, Zone: n.Zone, CapacityType: "on-demand", Labels: map[string]string{nodeSlotLabel: n.Name}, Stage: stage})
+	}
 	w, err := world.Build(scn)
 	if err != nil {
 		return nil, err
@@ -84,10 +115,15 @@ func implDraPass(raw json.RawMessage) (any, error) {
 		}
 		it.DynamicResources.ResourceSliceTemplates = []*cloudprovider.ResourceSliceTemplate{{Driver: unique.Make(drvTmpl), Pool: cloudprovider.ResourcePool{Name: unique.Make("pool-t")}, Devices: ds}}
 	}
+	for name, tp := range in.TParts {
+		if it := w.ITs[name]; it != nil {
+			it.DynamicResources.ResourceSliceTemplates = append(it.DynamicResources.ResourceSliceTemplates, templatePartTemplates(tp)...)
+		}
+	}
 	o := *options.FromContext(w.Ctx)
 	o.IgnoreDRARequests = false
 	ctx := options.ToContext(w.Ctx, &o)
-	for i, dc := range []*resourcev1.DeviceClass{deviceClass("gpu", drvExcl), deviceClass("tmpl", drvTmpl), deviceClass("shared", drvShared)} {
+	for i, dc := range []*resourcev1.DeviceClass{deviceClass("gpu", drvExcl), deviceClass("tmpl", drvTmpl), deviceClass("shared", drvShared), deviceClass("part", drvPart), deviceClass("tpart", drvTPart)} {
 		dc.UID = types.UID(fmt.Sprintf("dc-%d", i))
 		if err := w.Client.Create(ctx, dc); err != nil {
 			return nil, err
@@ -111,6 +147,116 @@ func implDraPass(raw json.RawMessage) (any, error) {
 				Capacity: map[resourcev1.QualifiedName]resourcev1.DeviceCapacity{capDim: {Value: *resource.NewQuantity(d.Cap, resource.DecimalSI)}}})
 		}
 		if err := w.Client.Create(ctx, s); err != nil {
+			return nil, err
+		}
+	}
+	// partitionable pools: the node-local ones of the existing nodes (slices owned by the Node, as node-local drivers
+	// publish them) and the others
+	type pubPool struct {
+		PartPool
+		owner string
+	}
+	var pub []pubPool
+	for _, n := range in.Nodes {
+		if len(n.Parts) == 0 {
+			continue
+		}
+		pp := PartPool{Name: n.poolName(), Slots: n.Slots}
+		if n.Split && len(n.Parts) > 1 {
+			h := len(n.Parts) / 2
+			pp.Slices = []PartSlice{{Access: "node:" + n.Name, Parts: n.Parts[:h]}, {Access: "node:" + n.Name, Parts: n.Parts[h:]}}
+		} else {
+			pp.Slices = []PartSlice{{Access: "node:" + n.Name, Parts: n.Parts}}
+		}
+		pub = append(pub, pubPool{pp, n.Name})
+	}
+	for _, pp := range in.PPools {
+		pub = append(pub, pubPool{pp, ""})
+	}
+	rsSeq := 10
+	held := 0
+	for _, pp := range pub {
+		n := int64(1 + len(pp.Slices))
+		meta := func(name string) metav1.ObjectMeta {
+			rsSeq++
+			m := metav1.ObjectMeta{Name: name, UID: types.UID(fmt.Sprintf("rs-%d", rsSeq))}
+			if pp.owner != "" {
+				m.OwnerReferences = []metav1.OwnerReference{{APIVersion: "v1", Kind: "Node", Name: pp.owner, UID: types.UID("node-" + pp.owner)}}
+			}
+			return m
+		}
+		cs := &resourcev1.ResourceSlice{ObjectMeta: meta("s-" + pp.Name + "-counters"), Spec: resourcev1.ResourceSliceSpec{Driver: drvPart,
+			Pool:           resourcev1.ResourcePool{Name: pp.Name, Generation: 1, ResourceSliceCount: n},
+			SharedCounters: []resourcev1.CounterSet{{Name: ctrSet, Counters: map[string]resourcev1.Counter{ctrName: {Value: *resource.NewQuantity(pp.Slots, resource.DecimalSI)}}}}}}
+		access := "all"
+		if len(pp.Slices) > 0 {
+			access = pp.Slices[0].Access
+		}
+		if err := setAccess(&cs.Spec, access); err != nil {
+			return DraPassOut{Err: err.Error()}, nil
+		}
+		if err := w.Client.Create(ctx, cs); err != nil {
+			return nil, err
+		}
+		for i, sl := range pp.Slices {
+			ds := &resourcev1.ResourceSlice{ObjectMeta: meta(fmt.Sprintf("s-%s-devices-%d", pp.Name, i)), Spec: resourcev1.ResourceSliceSpec{Driver: drvPart,
+				Pool: resourcev1.ResourcePool{Name: pp.Name, Generation: 1, ResourceSliceCount: n}}}
+			if err := setAccess(&ds.Spec, sl.Access); err != nil {
+				return DraPassOut{Err: err.Error()}, nil
+			}
+			for _, d := range sl.Parts {
+				ds.Spec.Devices = append(ds.Spec.Devices, resourcev1.Device{Name: d.Name, ConsumesCounters: []resourcev1.DeviceCounterConsumption{
+					{CounterSet: ctrSet, Counters: map[string]resourcev1.Counter{ctrName: {Value: *resource.NewQuantity(d.W, resource.DecimalSI)}}}}})
+			}
+			if err := w.Client.Create(ctx, ds); err != nil {
+				return nil, err
+			}
+			for _, d := range sl.Parts {
+				if !d.Pre {
+					continue
+				}
+				// the partition is in use: an allocated claim, reserved for a pod that runs on the owning node (for a
+				// pool without an owner: for a non-pod consumer)
+				held++
+				c := &resourcev1.ResourceClaim{ObjectMeta: metav1.ObjectMeta{Name: fmt.Sprintf("held-%d", held), Namespace: "default", UID: types.UID(fmt.Sprintf("held-%d", held))},
+					Spec: resourcev1.ResourceClaimSpec{Devices: resourcev1.DeviceClaim{Requests: []resourcev1.DeviceRequest{{Name: "req", Exactly: &resourcev1.ExactDeviceRequest{DeviceClassName: "part", Count: 1}}}}},
+					Status: resourcev1.ResourceClaimStatus{
+						Allocation: &resourcev1.AllocationResult{Devices: resourcev1.DeviceAllocationResult{Results: []resourcev1.DeviceRequestAllocationResult{{Request: "req", Driver: drvPart, Pool: pp.Name, Device: d.Name}}}},
+					}}
+				if pp.owner != "" {
+					pod := w.BuildPod(world.Pod{Name: fmt.Sprintf("run-%d", held), Labels: map[string]string{"app": "running"}, CPU: 100, Mem: 32}, pp.owner, 500+held)
+					pod.Spec.ResourceClaims = []corev1.PodResourceClaim{{Name: "c0", ResourceClaimName: ptr.To(c.Name)}}
+					if err := w.Client.Create(ctx, pod); err != nil {
+						return nil, err
+					}
+					if err := w.Cluster.UpdatePod(ctx, pod); err != nil {
+						return nil, err
+					}
+					c.Status.ReservedFor = []resourcev1.ResourceClaimConsumerReference{{Resource: "pods", Name: pod.Name, UID: pod.UID}}
+				} else {
+					c.Status.ReservedFor = []resourcev1.ResourceClaimConsumerReference{{APIGroup: "example.com", Resource: "widgets", Name: "w", UID: "w-1"}}
+				}
+				if err := w.Client.Create(ctx, c); err != nil {
+					return nil, err
+				}
+			}
+		}
+	}
+	for i, d := range in.Shared {
+		if d.Pre <= 0 {
+			continue
+		}
+		// part of the multi-allocatable device's capacity is consumed by an allocated claim of a non-pod consumer
+		c := &resourcev1.ResourceClaim{ObjectMeta: metav1.ObjectMeta{Name: fmt.Sprintf("used-%d", i), Namespace: "default", UID: types.UID(fmt.Sprintf("used-%d", i))},
+			Spec: resourcev1.ResourceClaimSpec{Devices: resourcev1.DeviceClaim{Requests: []resourcev1.DeviceRequest{{Name: "req", Exactly: &resourcev1.ExactDeviceRequest{DeviceClassName: "shared", Count: 1,
+				Capacity: &resourcev1.CapacityRequirements{Requests: map[resourcev1.QualifiedName]resource.Quantity{capDim: *resource.NewQuantity(d.Pre, resource.DecimalSI)}}}}}}},
+			Status: resourcev1.ResourceClaimStatus{
+				Allocation: &resourcev1.AllocationResult{Devices: resourcev1.DeviceAllocationResult{Results: []resourcev1.DeviceRequestAllocationResult{{Request: "req", Driver: drvShared, Pool: "pool-b", Device: d.Name,
+					ShareID:          ptr.To(types.UID(fmt.Sprintf("share-%d", i))),
+					ConsumedCapacity: map[resourcev1.QualifiedName]resource.Quantity{capDim: *resource.NewQuantity(d.Pre, resource.DecimalSI)}}}}},
+				ReservedFor: []resourcev1.ResourceClaimConsumerReference{{APIGroup: "example.com", Resource: "widgets", Name: "w", UID: "w-1"}},
+			}}
+		if err := w.Client.Create(ctx, c); err != nil {
 			return nil, err
 		}
 	}
@@ -150,7 +296,19 @@ func implDraPass(raw json.RawMessage) (any, error) {
 	if err != nil {
 		return DraPassOut{Err: err.Error()}, nil
 	}
-	out := DraPassOut{Claims: []DraPassClaim{}, Errors: map[string]string{}, Meta: []MetaEntry{}}
+	out := DraPassOut{Claims: []DraPassClaim{}, Existing: []DraPassClaim{}, Errors: map[string]string{}, Meta: []MetaEntry{}}
+	for _, en := range res.ExistingNodes {
+		if len(en.Pods) == 0 {
+			continue
+		}
+		c := DraPassClaim{Host: en.ProviderID(), Pool: en.Labels()["karpenter.sh/nodepool"], ITs: []string{en.Labels()[corev1.LabelInstanceTypeStable]}}
+		for _, p := range en.Pods {
+			c.Pods = append(c.Pods, p.Name)
+		}
+		sort.Strings(c.Pods)
+		out.Existing = append(out.Existing, c)
+	}
+	sort.Slice(out.Existing, func(i, j int) bool { return out.Existing[i].Host < out.Existing[j].Host })
 	for _, nc := range res.NewNodeClaims {
 		c := DraPassClaim{Host: nc.VerifReservations().Hostname, Pool: nc.NodePoolName}
 		for _, p := range nc.Pods {
@@ -174,7 +332,7 @@ func implDraPass(raw json.RawMessage) (any, error) {
 	for key, meta := range res.DRAClaimAllocationMetadata {
 		for it, devs := range meta.Devices {
 			for _, d := range devs {
-				e := MetaEntry{Claim: key.Name, NC: meta.NodeClaimID.Value(), IT: it.Value(), Dev: d.DeviceID.Device.Value(), Driver: d.DeviceID.Driver.Value(), Template: d.DeviceID.Template}
+				e := MetaEntry{Claim: key.Name, NC: meta.NodeClaimID.Value(), IT: it.Value(), Dev: d.DeviceID.Device.Value(), Pool: d.DeviceID.Pool.Value(), Driver: d.DeviceID.Driver.Value(), Template: d.DeviceID.Template}
 				if q, ok := d.ConsumedCapacity[capDim]; ok {
 					e.Consumed = q.Value()
 				}
@@ -206,6 +364,19 @@ func genDraPass(r *rand.Rand, t core.Tier) any {
 			}
 		}
 	}
+	if r.IntN(4) == 0 {
+		in.TParts = map[string]TPartPool{}
+		for _, it := range in.ITs {
+			if r.IntN(3) == 0 {
+				continue
+			}
+			tp := TPartPool{Slots: int64(2 + r.IntN(4))}
+			for j := 0; j < 2+r.IntN(2); j++ {
+				tp.Parts = append(tp.Parts, PartDev{Name: fmt.Sprintf("tp-%d", j), W: int64(1 + r.IntN(3))})
+			}
+			in.TParts[it.Name] = tp
+		}
+	}
 	nPools := 1 + r.IntN(2)
 	for i := 0; i < nPools; i++ {
 		in.Pools = append(in.Pools, world.NodePool{Name: fmt.Sprintf("pool-%d", i), Weight: int32((nPools - i) * 10), Labels: map[string]string{}})
@@ -217,7 +388,50 @@ func genDraPass(r *rand.Rand, t core.Tier) any {
 		}
 	}
 	for i := 0; i < r.IntN(2); i++ {
-		in.Shared = append(in.Shared, SharedDev{Name: fmt.Sprintf("mig-%d", i), Cap: int64(2 + r.IntN(6))})
+		d := SharedDev{Name: fmt.Sprintf("mig-%d", i), Cap: int64(2 + r.IntN(6))}
+		if r.IntN(3) == 0 {
+			d.Pre = int64(1 + r.IntN(int(d.Cap))) // consumed by allocations in the cluster, up to all of it
+		}
+		in.Shared = append(in.Shared, d)
+	}
+	// existing initialized nodes with a node-local partitionable device, some partitions in use by pods running there;
+	// sometimes a partitionable pool that every node can reach as well
+	partPre := func(parts []PartDev) int64 {
+		var used int64
+		for _, d := range parts {
+			if d.Pre {
+				used += d.W
+			}
+		}
+		return used
+	}
+	if r.IntN(2) == 0 {
+		for i := 0; i < 1+r.IntN(2); i++ {
+			it := pick(r, in.ITs)
+			n := DraNode{Name: fmt.Sprintf("node-%d", i), Pool: pick(r, in.Pools).Name, IT: it.Name, Zone: pick(r, it.Offerings).Zone, Split: r.IntN(4) == 0}
+			if r.IntN(10) == 0 {
+				n.Stage = "registered" // not initialized yet: its published slices do not count, templates stand in
+			}
+			if r.IntN(6) != 0 {
+				for j := 0; j < 2+r.IntN(3); j++ {
+					n.Parts = append(n.Parts, PartDev{Name: fmt.Sprintf("n%dp-%d", i, j), W: int64(1 + r.IntN(3)), Pre: r.IntN(3) == 0})
+				}
+				n.Slots = slotsFor(r, partPre(n.Parts), n.Parts)
+			}
+			in.Nodes = append(in.Nodes, n)
+		}
+		if r.IntN(4) == 0 {
+			pp := PartPool{Name: "pool-w", Slices: []PartSlice{{Access: pick(r, []string{"all", "all", "zone:" + c17Zones[0]})}}}
+			for j := 0; j < 2+r.IntN(3); j++ {
+				pp.Slices[0].Parts = append(pp.Slices[0].Parts, PartDev{Name: fmt.Sprintf("wp-%d", j), W: int64(1 + r.IntN(3)), Pre: r.IntN(4) == 0})
+			}
+			pp.Slots = slotsFor(r, partPre(pp.Slices[0].Parts), pp.Slices[0].Parts)
+			in.PPools = append(in.PPools, pp)
+		}
+	}
+	hasParts := len(in.PPools) > 0
+	for _, n := range in.Nodes {
+		hasParts = hasParts || len(n.Parts) > 0
 	}
 	nPods := 1 + r.IntN(6)
 	if t == core.Thorough {
@@ -230,6 +444,10 @@ func genDraPass(r *rand.Rand, t core.Tier) any {
 		}
 		if r.IntN(5) == 0 {
 			p.NodeSelector = map[string]string{"topology.kubernetes.io/zone": pick(r, c17Zones[:2])}
+		}
+		if len(in.Nodes) > 0 && r.IntN(4) == 0 {
+			p.NodeSelector = map[string]string{nodeSlotLabel: pick(r, in.Nodes).Name}
+			p.CPU = int64(100 * (1 + r.IntN(4)))
 		}
 		if r.IntN(5) != 0 { // most pods carry claims
 			for k := 0; k < 1+r.IntN(2); k++ {
@@ -246,6 +464,16 @@ func genDraPass(r *rand.Rand, t core.Tier) any {
 				}
 				c := AClaim{Name: fmt.Sprintf("rc-%d", len(in.Claims)), Count: 1}
 				switch x := r.IntN(10); {
+				case len(in.TParts) > 0 && r.IntN(3) == 0:
+					c.Class = "tpart"
+					if r.IntN(6) == 0 {
+						c.Count = 2
+					}
+				case hasParts && x < 5:
+					c.Class = "part"
+					if r.IntN(6) == 0 {
+						c.Count = 2
+					}
 				case x < 6 || (len(in.Shared) == 0 && len(in.Tmpl) == 0):
 					c.Class, c.Count = "gpu", int64(1+r.IntN(2))
 				case x < 8 && len(in.Shared) > 0:
@@ -268,7 +496,7 @@ func genDraPass(r *rand.Rand, t core.Tier) any {
 func opDraPass() *core.Op {
 	return &core.Op{
 		Name: "c17.drapass",
-		Doc:  "whole real Provisioner.Schedule passes with dynamic resource allocation enabled (IgnoreDRARequests=false; real Scheduler, NodeClaim.CanAdd/Add with the real Allocator, deviceallocation controller hydrated from the fake client): DeviceClasses, a cluster-wide ResourceSlice of 1..4 exclusive devices (some held by an allocated claim), optional multi-allocatable devices with capacity, per-instance-type ResourceSlice templates, 1..6 pods referencing fresh and shared ResourceClaims; observed: Results.DRAClaimAllocationMetadata and pods / instance types / hostname of every NodeClaim; judged by the exclusivity / capacity / completeness specification",
+		Doc:  "whole real Provisioner.Schedule passes with dynamic resource allocation enabled (IgnoreDRARequests=false; real Scheduler, ExistingNode.CanAdd/Add and NodeClaim.CanAdd/Add with the real Allocator, Provisioner.gatherResourceSlices / gatherAllocatedDevices, deviceallocation controller hydrated from the fake client): DeviceClasses, a cluster-wide ResourceSlice of 1..4 exclusive devices (some held by an allocated claim), optional multi-allocatable devices with capacity, per-instance-type ResourceSlice templates, in half of the cases 1..2 existing nodes (initialized; a few only registered) that own a node-local partitionable device (slices pinned by spec.nodeName and owned by the Node, shared counter, some partitions allocated to pods running on the node, budgets at and around exhaustion) and sometimes a cluster-wide / zonal partitionable pool; 1..6 pods referencing fresh and shared ResourceClaims (exclusive, template, capacity, partition), some pinned to an existing node; observed: Results.DRAClaimAllocationMetadata, pods / instance types / hostname of every NodeClaim and the pods placed on existing nodes; judged by the exclusivity / capacity / counter / completeness specification",
 		N:    func(t core.Tier) int { return map[core.Tier]int{core.Quick: 1500, core.Thorough: 6000}[t] },
 		Gen:  genDraPass,
 		Impl: implDraPass,
@@ -285,26 +513,86 @@ func opDraPass() *core.Op {
 			return len(ncs) > 1 || len(er) > 0
 		},
 		Labels: func(raw json.RawMessage, impl any) []string {
+			var in DraPassIn
+			json.Unmarshal(raw, &in)
 			m, _ := impl.(map[string]any)
 			cs, _ := m["claims"].([]any)
+			ex, _ := m["existing"].([]any)
 			meta, _ := m["meta"].([]any)
 			er, _ := m["errors"].(map[string]any)
 			ncs := map[string]bool{}
 			l := []string{}
 			seen := map[string]bool{}
-			for _, e := range meta {
-				em, _ := e.(map[string]any)
-				ncs[fmt.Sprint(em["nc"])] = true
-				k := "exclusive-device-allocated"
-				if em["template"] == true {
-					k = "template-device-allocated"
-				} else if strings.HasPrefix(fmt.Sprint(em["dev"]), "mig-") {
-					k = "shared-device-allocated"
-				}
+			add := func(k string) {
 				if !seen[k] {
 					seen[k] = true
 					l = append(l, k)
 				}
+			}
+			prePool := map[string]bool{}
+			for _, n := range in.Nodes {
+				add("existing-node")
+				var used int64
+				for _, d := range n.Parts {
+					if d.Pre {
+						used += d.W
+					}
+				}
+				if len(n.Parts) > 0 {
+					add("node-local-counter-pool")
+				}
+				if used > 0 {
+					prePool[n.poolName()] = true
+					add("node-local-counter-pool-with-partitions-in-use")
+					if used >= n.Slots {
+						add("node-local-counter-exhausted-by-partitions-in-use")
+					}
+				}
+			}
+			for _, d := range in.Shared {
+				if d.Pre > 0 {
+					add("shared-device-with-capacity-consumed-in-cluster")
+				}
+			}
+			for _, pp := range in.PPools {
+				add("cluster-counter-pool")
+				for _, sl := range pp.Slices {
+					for _, d := range sl.Parts {
+						if d.Pre {
+							prePool[pp.Name] = true
+							add("cluster-counter-pool-with-partitions-in-use")
+						}
+					}
+				}
+			}
+			for _, e := range meta {
+				em, _ := e.(map[string]any)
+				nc := fmt.Sprint(em["nc"])
+				ncs[nc] = true
+				k := "exclusive-device-allocated"
+				switch {
+				case fmt.Sprint(em["driver"]) == drvTPart:
+					k = "template-counter-device-allocated"
+				case em["template"] == true:
+					k = "template-device-allocated"
+				case fmt.Sprint(em["driver"]) == drvShared:
+					k = "shared-device-allocated"
+				case fmt.Sprint(em["driver"]) == drvPart:
+					k = "counter-device-allocated"
+					if strings.HasPrefix(fmt.Sprint(em["pool"]), "np-") {
+						k = "node-local-counter-device-allocated"
+					}
+					if prePool[fmt.Sprint(em["pool"])] {
+						add(k + "-beside-partitions-in-use")
+					}
+				}
+				add(k)
+				if strings.HasPrefix(nc, "fake://") {
+					add("devices-allocated-on-existing-node")
+				}
+			}
+			if len(ex) > 0 {
+				add("pods-on-existing-nodes")
 			}
 			l = append(l, fmt.Sprintf("nodeclaims=%d", min(len(cs), 4)), fmt.Sprintf("nodeclaims-with-devices=%d", min(len(ncs), 3)), fmt.Sprintf("errors=%d", min(len(er), 3)))
 			if e, _ := m["err"].(string); e != "" {
@@ -320,6 +608,16 @@ func opDraPass() *core.Op {
 			for _, c := range core.ShrinkList(in.Pods) {
 				d := in
 				d.Pods = c
+				out = append(out, d)
+			}
+			for _, c := range core.ShrinkList(in.Nodes) {
+				d := in
+				d.Nodes = c
+				out = append(out, d)
+			}
+			if len(in.PPools) > 0 {
+				d := in
+				d.PPools = nil
 				out = append(out, d)
 			}
 			return out
